@@ -71,18 +71,18 @@ fn check_cipher(c: &mut Case, builder: &ArchiveBuilder, key: u32, buf: &[u8], ct
         decrypt_block(&mut x, key);
         c.count("cipher_dword_pairs", 1);
         if x != plain {
-            c.violate(format!("cipher-dword-not-inverse|{kc}|{ctx}"), format!("decrypt_block(encrypt_block(b,{key:#x})) != b, len={}", buf.len()), json!({"key": key, "buf": hex(buf)}));
+            c.violate(format!("cipher-dword-not-inverse|{kc}|{ctx}"), format!("decrypt_block(encrypt_block(b,{key:#x})) != b, len={}", buf.len()), json!({"key": key, "len": buf.len(), "buf": hex(&buf[..buf.len().min(64)])}));
         }
         if key != 0 {
             let mut r = plain.clone();
             ref_encrypt(&mut r, key);
             if r != enc {
-                c.violate(format!("cipher-encrypt-ne-ref|{kc}|{ctx}"), format!("encrypt_block differs from reference cipher, key={key:#x} len={}", buf.len()), json!({"key": key, "buf": hex(buf)}));
+                c.violate(format!("cipher-encrypt-ne-ref|{kc}|{ctx}"), format!("encrypt_block differs from reference cipher, key={key:#x} len={}", buf.len()), json!({"key": key, "len": buf.len(), "buf": hex(&buf[..buf.len().min(64)])}));
             }
             let mut d = enc.clone();
             ref_decrypt(&mut d, key);
             if d != plain {
-                c.violate(format!("cipher-ref-decrypt-ne-plain|{kc}|{ctx}"), format!("reference decrypt of encrypt_block output != plain, key={key:#x}"), json!({"key": key, "buf": hex(buf)}));
+                c.violate(format!("cipher-ref-decrypt-ne-plain|{kc}|{ctx}"), format!("reference decrypt of encrypt_block output != plain, key={key:#x}"), json!({"key": key, "len": buf.len(), "buf": hex(&buf[..buf.len().min(64)])}));
             }
             if !plain.is_empty() {
                 let d0 = decrypt_dword(enc[0], key);
@@ -307,7 +307,10 @@ fn main() {
     for i in 0..nlarge {
         let idx = 2000 + i;
         let mut rng = run.rng(idx, 2);
+        // every tenth: units longer than 64 Ki dwords (a hash table of 32768 entries, an encrypted single-unit file of some
+        // hundred KiB) - one key stream has to run through the whole unit
         let len = match i % 4 {
+            _ if i % 10 == 9 => [262144 - 4 + rng.usize(12), 262144 + 4 + rng.usize(300_000), 524288 + rng.usize(9), (1 << 20) + rng.usize(400_000)][(i as usize / 10) % 4],
             0 => rng.usize(64),
             1 => 4096 + rng.usize(8),
             2 => rng.usize(65536),
